@@ -16,6 +16,7 @@ CHECKS = {
  "C07": ("fsdiff/sub-twin", "exploration", "seeded search: two identical instances driven by the same history, op(Sub(A,dir),name) against op(B,dir/name), comparing outcome, data, error path and full snapshots", "samples histories; dir is an existing or missing directory, never a regular file; OS symlinks excluded as in the statement", TECH_SEQ),
  "C08": ("capsim", "exploration", "seeded search over (helper, exposed-interface subset, start state, fault position): each package helper on a FaultFS exposing a drawn subset of exactly the interfaces its dispatch inspects (70 generated wrapper types over real mem.FS / os.FS), against a twin exposing all of them; in half of the trials one primitive call inside the fallback path fails", "samples subsets and fault positions (all 2^k subsets per helper are reachable by the draw, coverage is counted, not enumerated); what the caller does with a handle returned by OpenFile/Create is not part of the helper", TECH_FAULT),
  "C16": ("fsdiff/listing", "exploration", "seeded search over directory sizes, stacks and page-size sequences; by-name listing and paged handle reads judged for completeness, duplicates, order, Info-vs-Stat agreement and EOF rules", "directories are not mutated between pages; mem listing order permuted from the choice stream", TECH_SEQ),
+ "C18": ("txnsim", "exploration", "seeded search over transaction call sequences and endings on the real in-memory store's transactions and on the serial fallback over a SimStore with injected Get/Set faults, judged against a map model (result count, order, op ids, values, errors) and by opening, reading and committing a fresh transaction after every ending; plus 2-3 concurrent transactions on the real in-memory store as tasks under the seeded scheduler, judged for isolation", "the store mutex is never modelled: the scheduler probes it with TryLock, so a lock that is taken later, earlier or not at all changes which interleavings are explored; a store left locked is a deadlock verdict; a double unlock kills the worker process and is attributed to the trial by the driver; Commit twice is not generated", TECH_SCHED),
  "C19": ("blobsim", "exploration", "seeded search over call sequences on blob.Bytes (and on everything derived: views of views, Set from an own view) through the dispatch functions, judged after every call against a []byte model with aliasing; runs as the single task of the scheduler with lock gates on so that re-entering the blob mutex is a deterministic deadlock verdict; the same sequences run against idbblob under node (GOOS=js GOARCH=wasm)", "views are dropped from the comparison when their root is resized (whether they still alias is implementation specific); a Set whose source does not fit may copy what fits or be refused; for the typed-array blob an error for out-of-range arguments is optional as stated; Set/Grow/Truncate dispatch fallbacks for third-party blobs lacking the method are not judged (DESIGN section 5)", TECH_SCHED + " (single task; the schedule dimension is the lock re-entry check)"),
  "C17": ("handlediff/closed+unlink", "exploration", "seeded search over post-Close call orders on every handle kind of seven stacks, sibling-handle independence and unlink/rename-then-write histories, judged against os.File and the os twin's set of names", "single goroutine; reference = os.File on Linux", TECH_SEQ),
 }
